@@ -27,7 +27,7 @@ type vxC11Host struct {
 }
 
 type vxC11Op struct {
-	Kind int `json:"kind"` // 0 discover(AddHost) 1 connected(up+HostUp) 2 down(down+HostDown) 3 state down only 4 RemoveHost
+	Kind int `json:"kind"` // 0 discover(AddHost) 1 connected(up+HostUp) 2 down(down+HostDown) 3 state down only 4 RemoveHost 5 bulk AddHosts(this, next, a known one)
 	Host int `json:"host"`
 }
 
@@ -224,6 +224,25 @@ func (w *vxC11World) apply(op vxC11Op) {
 	case 4: // removeHost
 		w.pol.RemoveHost(h)
 		w.inRing[i], w.inFB[i] = false, false
+	case 5: // the bulk form of discovery (AddHosts, what Session.init uses): this host, the next one, and last a host that is known already
+		batch := []*HostInfo{h, w.hosts[(i+1)%len(w.hosts)]}
+		for j := range w.hosts {
+			if w.inRing[j] && j != i && j != (i+1)%len(w.hosts) {
+				batch = append(batch, w.hosts[j])
+				w.inFB[j] = true // AddHost restores a host that HostDown dropped from the fallback's list
+				break
+			}
+		}
+		if w.ta != nil {
+			w.ta.AddHosts(batch)
+		} else {
+			for _, b := range batch {
+				w.pol.AddHost(b)
+			}
+		}
+		for _, j := range []int{i, (i + 1) % len(w.hosts)} {
+			w.inRing[j], w.inFB[j] = true, true
+		}
 	}
 }
 
@@ -623,7 +642,7 @@ func TestVxC11Sequence(t *testing.T) {
 				st := vxC11Step{}
 				if len(c.Hosts) > 0 {
 					for j, no := 0, rapid.IntRange(0, 3).Draw(t, "nops"); j < no; j++ {
-						st.Ops = append(st.Ops, vxC11Op{Kind: rapid.IntRange(0, 4).Draw(t, "op"), Host: rapid.IntRange(0, len(c.Hosts)-1).Draw(t, "ophost")})
+						st.Ops = append(st.Ops, vxC11Op{Kind: rapid.IntRange(0, 5).Draw(t, "op"), Host: rapid.IntRange(0, len(c.Hosts)-1).Draw(t, "ophost")})
 					}
 				}
 				switch rapid.IntRange(0, 7).Draw(t, "keykind") {
@@ -775,7 +794,7 @@ func TestVxC11Concurrent(t *testing.T) {
 			for i := 0; i < nm; i++ {
 				var ops []vxC11Op
 				for j, m := 0, rapid.IntRange(10, 60).Draw(t, "nops"); j < m; j++ {
-					ops = append(ops, vxC11Op{Kind: rapid.IntRange(0, 4).Draw(t, "op"), Host: rapid.IntRange(0, len(c.Hosts)-1).Draw(t, "ophost")})
+					ops = append(ops, vxC11Op{Kind: rapid.IntRange(0, 5).Draw(t, "op"), Host: rapid.IntRange(0, len(c.Hosts)-1).Draw(t, "ophost")})
 				}
 				c.Mutators = append(c.Mutators, ops)
 			}
